@@ -7,7 +7,9 @@ C10 — helper lemmas (umbrella).  The development is split over
   Burst1 … Burst7                     NAMES / WHO / 324 / 329 / 367 replies, the bot's own JOIN, `run_inv`
   BatchSim                            everything the server emits is an ordinary message; batches; `runB_inv`
   Complete                            every query of the bot is answered or still queued; `run_complete`
+  FollowSim                           followIdentificationThroughNickChanges loses no NICK; `runF_eq_runB`
 -/
 import LimnoriaModel.C10.Burst7
 import LimnoriaModel.C10.BatchSim
 import LimnoriaModel.C10.Complete
+import LimnoriaModel.C10.FollowSim
